@@ -18,3 +18,4 @@ CFG = dict(
                 "subscriber is legal and is not reported.",
      assumptions=["testing/synctest and runtime.Stack(all) snapshots are correct", "subscriber channels are only read by the harness"],
      timeout_quick=600, timeout_thorough=3000)
+CFG["rule"] += ' Added after independently written breaking changes: Also Subscribe calls with several channels (one shared context).'
